@@ -66,6 +66,7 @@ func checkOnce(sc *Scenario) (string, onceInfo) {
 	// over the run (committed blocks only)
 	outBlocks := map[onceKey][]uint32{}
 	execBlocks := map[string][]uint32{}
+	statusBlocks := map[string][]uint32{} // blocks in which the batch's status was written at all
 	var problems []string
 	hv.Store(SQLHook(func(ev *SQLEvent) error {
 		if atomic.LoadInt32(&active) == 0 || n == nil || ev.GID != atomic.LoadInt64(&n.Fake.syncGID) || !ev.After || ev.Err != nil {
@@ -99,6 +100,8 @@ func checkOnce(sc *Scenario) (string, onceInfo) {
 					execBlocks[h] = append(execBlocks[h], cur)
 					info.Executed++
 				}
+				// any verdict (executed at a height, or a reject code) settles the batch
+				statusBlocks[h] = append(statusBlocks[h], cur)
 			}
 			outc, pegc, exec = map[onceKey]int{}, map[onceKey]int{}, map[string]int64{}
 		case "stmt-exec", "exec":
@@ -132,6 +135,11 @@ func checkOnce(sc *Scenario) (string, onceInfo) {
 	for k, bs := range outBlocks {
 		if len(bs) > 1 {
 			problems = append(problems, fmt.Sprintf("the outcome of entry %s… tx %d was written in %d different blocks %v", k.Hash[:12], k.Idx, len(bs), bs))
+		}
+	}
+	for h, bs := range statusBlocks {
+		if len(bs) > 1 {
+			problems = append(problems, fmt.Sprintf("batch %s… was given a verdict (executed or rejected) in %d different blocks %v: it was considered for execution more than once", h[:12], len(bs), bs))
 		}
 	}
 	for h, bs := range execBlocks {
